@@ -9,6 +9,34 @@ ASSUMPTIONS = list(c09.ASSUMPTIONS) + [
 ]
 
 
+def _big_body(i, j, kind):
+    from vp.h import Table
+    n = 12
+    R = Table({'k': list(range(n)), 'q': [100 + x for x in range(n)]})
+    lk = [x for x in range(n) if x not in (i, j)]
+    lk = lk[::-1]                      # left order differs from right order
+    L = Table({'k': lk, 'p': [x * 2 for x in lk]})
+    out = L.full_join(R, 'k', 'k') if kind == 'full' else L.join(R, 'k', 'k')
+    want = [(x, x * 2, x, 100 + x) for x in lk]
+    if kind == 'full':
+        want += [(None, None, x, 100 + x) for x in sorted(set([i, j]))]
+    got = H.rows_of(out)
+    if not H.rows_eq(got, want): return H.fail('%s join with a 12-row right table, right rows %r unmatched: rows %r, definition gives %r' % (kind, sorted(set([i, j])), got, want))
+    return True
+
+
+def h_big(i: int, j: int) -> bool:
+    """
+    pre: 0 <= i < 12 and 0 <= j < 12
+    post: _
+    """
+    H.reset()
+    if H.skip(locals()): return True
+    R12 = list(range(12))
+    if not H.concrete(_big_body, H.among(R12, i), H.among(R12, j), H.cfg('kind')): return False
+    return H.ok()
+
+
 def obligations(tier):
     obs = []
     obs += c09.obligations(tier, kind='left', mode='rows', prefix='left')
@@ -21,6 +49,10 @@ def obligations(tier):
                         budget=150 if q else (1500 if big else 600),
                         bounds='%dx%d rows, all key equality patterns incl. a None class: inner <= left <= full, every row present, full join symmetric' % (nl, nr),
                         smoke=joinlib.smoke(nl, nr, 1, 0)))
+    for kind in ('left', 'full'):
+        obs.append(dict(name='%s[12-row right table, two unmatched rows]' % kind, fn='h_big', config={'kind': kind}, budget=90,
+                        bounds='one axis beyond the symbolic bound: right table of 12 distinct keys, left table holds all but two solver-chosen keys in reverse order; rows and order vs the definition',
+                        smoke=[[1, 8], [0, 11]]))
     obs.append(dict(name='contain[2x2,K=2]', fn='h_join', config={'nl': 2, 'nr': 2, 'kind': 'full', 'mode': 'contain', 'K': 2, 'W': 0, 'ktype': 'int', 'spec': 'name', 'nones': False},
                     budget=200 if q else 900, bounds='2x2 rows, composite key, all pattern pairs', smoke=joinlib.smoke(2, 2, 2, 0)))
     return obs
